@@ -610,7 +610,18 @@ def _holds_on_cone(ctx, terms, support):
     the user function at another pixel's points.  Dropping path constraints weakens the hypothesis, so `unsat` here implies
     `unsat` under the full path condition (pixels are independent; without this z3's nlsat wanders through the other pixels)."""
     import time
-    keep = [c for c in ctx.constraints if _fapps(c, set()) <= support]
+    support = set(support)
+    for t in terms:
+        _fapps(t, support)
+    cf = [(c, _fapps(c, set())) for c in ctx.constraints]
+    changed = True
+    while changed:                      # closure: constraints that share a user-function value with the obligation's cone
+        changed = False
+        for c, fa in cf:
+            if fa and (fa & support) and not fa <= support:
+                support |= fa
+                changed = True
+    keep = [c for c, fa in cf if fa <= support]
     s = z3.Solver()
     s.set("timeout", ctx.timeout_ms)
     s.add(*keep)
